@@ -662,11 +662,17 @@ def v_lt(a, b):
     if ka is not None and ka == kb:
         return seq_lt(elems(a), elems(b), bits_of(ka))
     if isinstance(a, tuple) and isinstance(b, tuple):
-        r = len(a) < len(b)
-        for x, y in reversed(list(zip(a, b))):
-            r = z_or([v_lt(x, y), z_and([v_eq(x, y), r])])
-        return r
+        # like CPython: find the first differing pair (forking), compare only that one
+        for x, y in zip(a, b):
+            e = v_eq(x, y)
+            if e is True or (e is not False and br(e)):
+                continue
+            return v_lt(x, y)
+        return len(a) < len(b)
     if has_sym(a) or has_sym(b):
+        if kind_of(a) is not None or kind_of(b) is not None or isinstance(a, (SInt, int)) or isinstance(b, (SInt, int)) \
+                or a is None or b is None:
+            raise TypeError("'<' not supported between instances of %r and %r" % (type(a).__name__, type(b).__name__))
         raise Unsupported("< on %s / %s" % (type(a).__name__, type(b).__name__))
     return a < b
 
